@@ -360,16 +360,22 @@ func (b *Buffer) grow(n int) {
 
 	// TODO(chef): 可以先尝试是否能挪出空闲位置
 
+	dataLen := b.writePos - b.readPos
+
 	var newLen int
 	if cap(b.core) == 0 {
 		newLen = 128
 	} else {
 		newLen = cap(b.core) * 2
 	}
+	// 翻倍一次不一定够用（比如一次写入的内容比当前容量还大），扩容到放得下为止
+	for newLen-dataLen < n {
+		newLen *= 2
+	}
 	buf := make([]byte, newLen)
 	Log.Debugf("Buffer::grow. need=%d, old len=%d, cap=%d, new len=%d", n, b.Len(), cap(b.core), newLen)
 	copy(buf, b.core[b.readPos:b.writePos])
 	b.core = buf
 	b.readPos = 0
-	b.writePos = b.writePos - b.readPos
+	b.writePos = dataLen
 }
